@@ -4,6 +4,8 @@ import KalignModel.Driver.Param
 import KalignModel.Driver.Dp
 import KalignModel.Driver.Io
 import KalignModel.Driver.Misc
+import KalignModel.Driver.Bpm
+import KalignModel.Driver.Kmeans
 /-!
 Line-protocol driver: one operation per input line, one result line per operation.
 Only executable model definitions are imported here (no `Props`, no Mathlib), so a failing proof
@@ -11,7 +13,7 @@ never prevents the model from running.  Each slice of the model contributes an `
 -/
 namespace Kalign.Driver
 
-def tables : OpTable := weaveOps ++ paramOps ++ dpOps ++ ioOps ++ miscOps
+def tables : OpTable := weaveOps ++ paramOps ++ dpOps ++ ioOps ++ miscOps ++ bpmOps ++ kmeansOps
 
 def step (line : String) : String :=
   match (line.trimAscii.toString.splitOn " ").filter (· ≠ "") with
